@@ -12,6 +12,7 @@ import ast
 import copy
 
 from .. import symx
+from ..cfg import ENTRY, EXIT, Assume, stmt_defs
 from ..core import (AnalysisIncomplete, arg_or_kw, call_name, const_value,
                     names_loaded, params, u, walk_local)
 from ..match import _closed_over, canon, classify, match_any
@@ -207,6 +208,89 @@ def origin(fi, e):
     return e, True
 
 
+def _binders(fi, name):
+    """Everything that binds `name` in the function: CFG statements of any
+    kind (assignment, for/with target, import, def, walrus ...) and 'PARAM'."""
+    out = ['PARAM'] if name in params(fi.fn) else []
+    for s in fi.cfg.nodes:
+        if s in (ENTRY, EXIT) or isinstance(s, Assume):
+            continue
+        if name in stmt_defs(s):
+            out.append(s)
+    return out
+
+
+def _alias_of(fi, name):
+    """`name` is bound exactly once in the function, by `name = <other name>`:
+    returns the other name."""
+    b = _binders(fi, name)
+    if len(b) != 1 or not isinstance(b[0], ast.Assign):
+        return None
+    s = b[0]
+    if len(s.targets) == 1 and isinstance(s.targets[0], ast.Name) and isinstance(s.value, ast.Name) and s.value.id != name:
+        return s.value.id
+    return None
+
+
+def _in_loop(mod, fn, node):
+    p = mod.parent.get(node)
+    while p is not None and p is not fn:
+        if isinstance(p, (ast.For, ast.AsyncFor, ast.While)):
+            return True
+        p = mod.parent.get(p)
+    return False
+
+
+def alias_class(mod, fn, fi, name):
+    """The local names of ONE array object: (root, names, rootdef).
+
+    `name` is followed backwards through plain copies of a reference
+    (`R = R0`, both bound exactly once) to the root name, whose only binding
+    `rootdef` creates the object; `names` is the closure of the root under such
+    copies.  Because every name of the class is bound once and the root
+    definition is not inside a loop, every name of the class denotes the object
+    made at `rootdef` whenever it is bound: a subscript store through any of
+    them is a store into the array that `name` hands to its consumer (this is
+    what a helper that builds and pins an array looks like once it is inlined:
+    `R__i = ...; R__i[sinks] = 1; R = R__i`).  When the root has no single
+    simple definition `rootdef` is None; when the conditions for merging do
+    not hold the class is {name} (the pinned behaviour)."""
+    root, seen = name, {name}
+    while True:
+        nxt = _alias_of(fi, root)
+        if nxt is None or nxt in seen:
+            break
+        root = nxt
+        seen.add(root)
+    b = _binders(fi, root)
+    rootdef = b[0] if len(b) == 1 and isinstance(b[0], (ast.Assign, ast.AnnAssign)) and fi.def_value(b[0], root) is not None else None
+    if root != name and (rootdef is None or _in_loop(mod, fn, rootdef)):
+        # cannot merge soundly: fall back to the name itself
+        b = _binders(fi, name)
+        d = b[0] if len(b) == 1 and isinstance(b[0], (ast.Assign, ast.AnnAssign)) and fi.def_value(b[0], name) is not None else None
+        return name, {name}, d
+    names = {root}
+    if rootdef is not None and not _in_loop(mod, fn, rootdef):
+        cands = {t for s in fi.cfg.nodes if isinstance(s, ast.Assign) for t in stmt_defs(s)}
+        grew = True
+        while grew:
+            grew = False
+            for k in sorted(cands - names):
+                if _alias_of(fi, k) in names:
+                    names.add(k)
+                    grew = True
+    return root, names, rootdef
+
+
+def stores_into(fn, names):
+    """subscript_stores over all names of an alias class."""
+    out = []
+    for s, t in subscript_stores(fn):
+        if isinstance(t.value, ast.Name) and t.value.id in names:
+            out.append((s, t))
+    return out
+
+
 def mul_factors(e):
     """Flatten a product/quotient: (numerator factors, denominator factors)."""
     nums, dens = [], []
@@ -318,7 +402,8 @@ def d2_masking(ck, mod):
         return
     ret = r[0]
     M = ret.value.id
-    defs = assigns_to(fn, M)
+    M0, Mnames, Md = alias_class(mod, fn, fi, M)
+    defs = [Md] if Md is not None else []
     if len(defs) != 1 or not isinstance(defs[0], ast.Assign):
         ck.missing(rule + '.fresh', 'single definition of the returned matrix %s in _I_m_Q' % M)
         return
@@ -340,7 +425,7 @@ def d2_masking(ck, mod):
            'diag': 'absorbing DIAGONAL := 1 (keeps the system non-singular, pins the unknown)'}
     good = {'cols': [], 'rows': [], 'diag': []}
     unknown = []
-    for s, t in subscript_stores(fn, M):
+    for s, t in stores_into(fn, Mnames):
         sl = t.slice
         elts = list(sl.elts) if isinstance(sl, ast.Tuple) else [sl, ast.Slice(lower=None, upper=None, step=None)]
         kind = None
@@ -502,11 +587,13 @@ def d3_committors(ck, mod):
         R = None
     else:
         R = Rarg.id
-        Rdef = assigns_to(fn, R)
-        if len(Rdef) != 1 or not isinstance(Rdef[0], ast.Assign) or fi.def_value(Rdef[0], R) is None:
+        # the array object handed to the solver, under all its local names
+        R0, Rnames, Rd = alias_class(mod, fn, fi, R)
+        Rdef = [Rd] if Rd is not None else []
+        if len(Rdef) != 1 or not isinstance(Rdef[0], ast.Assign) or fi.def_value(Rdef[0], R0) is None:
             ck.missing(rule + '.rhs', 'single definition of the right-hand side %s' % R)
         else:
-            rv = fi.def_value(Rdef[0], R)
+            rv = fi.def_value(Rdef[0], R0)
             v = classify(xp(fi, mod, rv, stop=stop), ['%s[:, %s]' % (tprob, sinks), '%s[:, %s].copy()' % (tprob, sinks)],
                          scope={tprob, sinks})
             okR = ck.decide(v, rule + '.rhs', mod, Rdef[0], F, u(Rdef[0]),
@@ -514,7 +601,8 @@ def d3_committors(ck, mod):
             if okR:
                 _pins(ck, rule + '.rhs', mod, fn, fi, F, R, {sinks: 1, sources: 0}, stop, ss,
                       'R[sinks] = 1 and R[sources] = 0 (boundary rows)',
-                      'the right-hand side must be pinned before the solve: R[sinks] = 1.0 and R[sources] = 0.0', after=Rdef[0])
+                      'the right-hand side must be pinned before the solve: R[sinks] = 1.0 and R[sources] = 0.0', after=Rdef[0],
+                      names=Rnames)
         ck.ok(rule + '.solve', mod, solve, u(solve), 'solves (I - Q) B = R')
     # sum over sinks and final pin: the returned object
     r = returns_of(fn)
@@ -522,11 +610,12 @@ def d3_committors(ck, mod):
         ck.missing(rule + '.sum', 'single `return <committors>` (a named array)')
         return
     Cn = r[0].value.id
-    cm = assigns_to(fn, Cn)
-    if len(cm) != 1 or not isinstance(cm[0], ast.Assign) or fi.def_value(cm[0], Cn) is None:
+    C0, Cnames, Cd = alias_class(mod, fn, fi, Cn)
+    cm = [Cd] if Cd is not None else []
+    if len(cm) != 1 or not isinstance(cm[0], ast.Assign) or fi.def_value(cm[0], C0) is None:
         ck.missing(rule + '.sum', 'single definition of the returned array %s' % Cn)
         return
-    cv = fi.def_value(cm[0], Cn)
+    cv = fi.def_value(cm[0], C0)
     SOL = 'SOLUTION_'
     st = fi.xu(solve, stop=stop)
     solnames = set()
@@ -541,17 +630,18 @@ def d3_committors(ck, mod):
             return _sym(SOL)
         return n
     X = _rewrite(xp(fi, mod, cv, stop=stop), mark)
-    ks = ['%s.shape[0]' % sinks, 'len(%s)' % sinks, '%s.size' % sinks, '-1'] + (['%s.shape[1]' % R] if R else [])
+    Rs = sorted(Rnames) if R else []
+    ks = ['%s.shape[0]' % sinks, 'len(%s)' % sinks, '%s.size' % sinks, '-1'] + ['%s.shape[1]' % x for x in Rs]
     # a wrong row count makes reshape raise, so only the column count (and
     # the order) decides the values: rows may be anything, except with -1 columns
-    rows = ['%s.shape[0]' % tprob, '%s.shape[1]' % tprob, '%s.shape[0]' % SOL, 'len(%s)' % SOL] + (['%s.shape[0]' % R] if R else [])
+    rows = ['%s.shape[0]' % tprob, '%s.shape[1]' % tprob, '%s.shape[0]' % SOL, 'len(%s)' % SOL] + ['%s.shape[0]' % x for x in Rs]
     forms = []
     for k in ks:
         for n in (rows if k == '-1' else ['_N']):
             for rs in ('%s.reshape(%s, %s)', '%s.reshape((%s, %s))', 'np.reshape(%s, (%s, %s))'):
                 for sm in ('.sum(axis=1)', '.sum(1)', '.sum(axis=-1)', '.sum(-1)'):
                     forms.append(rs % (SOL, n, k) + sm)
-    v = classify(X, forms, scope={tprob, sinks, SOL} | ({R} if R else set()))
+    v = classify(X, forms, scope={tprob, sinks, SOL} | set(Rs))
     ck.decide(v, rule + '.sum', mod, cm[0], F, u(cm[0]),
               'probability of hitting ANY sink = sum over the per-sink columns',
               'committors must be B.reshape(n_states, n_sinks).sum(axis=1): the solver returns one column per sink '
@@ -560,22 +650,25 @@ def d3_committors(ck, mod):
                  'sinks are pinned to exactly 1 after the sum',
                  'after summing the per-sink columns every sink row holds n_sinks (each column of a sink row of R '
                  'is 1): `committors[sinks] = 1.0` is required for more than one sink', construct_missing='committors[sinks] = 1.0',
-                 also={sources: 0}, after=cm[0])
+                 also={sources: 0}, after=cm[0], names=Cnames)
 
 
-def _pins(ck, rule, mod, fn, fi, function, arr, want, stop, before, ok_txt, bad_txt, construct_missing=None, also=None, after=None):
+def _pins(ck, rule, mod, fn, fi, function, arr, want, stop, before, ok_txt, bad_txt, construct_missing=None, also=None, after=None,
+          names=None):
     """Constant stores `arr[<index set>] = <value>`: for every index set in
     `want` a store of the wanted value lies on every path from the definition
     `after` of the array to its consumer `before` (without `after`: dominates
     `before`); a store of another constant is a violation, a store that cannot
     be classified makes the analysis incomplete.  `also` lists further index sets with the
     only constant that may be stored there (a store that changes nothing).
+    `names`: all local names of the array object (alias_class), default {arr}.
     Returns the effective stores."""
+    names = set(names or ()) | {arr}
     got = {k: [] for k in want}
     allowed = dict(also or {})
     allowed.update(want)
     unknown, wrong = [], []
-    for s, t in subscript_stores(fn, arr):
+    for s, t in stores_into(fn, names):
         k = _index_role(fi, t.slice, allowed, stop) if isinstance(s, ast.Assign) else None
         val = _num_const(fi, s.value) if k is not None else None
         if k is None or val is None:
@@ -586,8 +679,8 @@ def _pins(ck, rule, mod, fn, fi, function, arr, want, stop, before, ok_txt, bad_
             got[k].append(s)
     # other ways to write into the array: impure calls that receive it
     for c in calls_in(fn):
-        takes = [a for a in list(c.args) + [k.value for k in c.keywords] if isinstance(a, ast.Name) and a.id == arr]
-        recv = isinstance(c.func, ast.Attribute) and isinstance(c.func.value, ast.Name) and c.func.value.id == arr
+        takes = [a for a in list(c.args) + [k.value for k in c.keywords] if isinstance(a, ast.Name) and a.id in names]
+        recv = isinstance(c.func, ast.Attribute) and isinstance(c.func.value, ast.Name) and c.func.value.id in names
         if (takes or recv) and not is_pure(ast.Call(func=c.func, args=[], keywords=[])):
             unknown.append(c)
     for s in wrong:
@@ -609,17 +702,17 @@ def _pins(ck, rule, mod, fn, fi, function, arr, want, stop, before, ok_txt, bad_
                 ck.bad(rule, mod, late[0], function, u(late[0]), 'the store comes after its consumer: ' + bad_txt)
             else:
                 ck.missing(rule, 'the store `%s` is conditional: cannot decide whether it is executed whenever it is needed' % u(got[k][0]))
-        elif unknown or [s for s in wrong if _index_role(fi, subscript_of(s, arr).slice, allowed, stop) == k]:
+        elif unknown or [s for s in wrong if _index_role(fi, subscript_of(s, names).slice, allowed, stop) == k]:
             pass            # already reported
         else:
             ck.bad(rule, mod, before, function, construct_missing or '%s[%s] = %s: MISSING' % (arr, k, want[k]), bad_txt)
     return eff
 
 
-def subscript_of(stmt, arr):
+def subscript_of(stmt, names):
     for t in (stmt.targets if isinstance(stmt, ast.Assign) else [stmt.target]):
         for tt in (t.elts if isinstance(t, (ast.Tuple, ast.List)) else [t]):
-            if isinstance(tt, ast.Subscript) and u(tt.value) == arr:
+            if isinstance(tt, ast.Subscript) and isinstance(tt.value, ast.Name) and tt.value.id in names:
                 return tt
     return None
 
@@ -860,20 +953,21 @@ def d3_sink_set(ck, mod, fn, fi, F, node, sset, results, tprob, sinks, pops, lag
         ck.missing(rule, 'right-hand side of the MFPT solve is not a named array: %s' % u(c)[:80])
         return
     cn = c.id
-    cdefs = [s for s in assigns_to(fn, cn)]
-    if len(cdefs) != 1 or not isinstance(cdefs[0], ast.Assign) or fi.def_value(cdefs[0], cn) is None or cdefs[0] not in nodes:
+    c0, cnames, cd = alias_class(mod, fn, fi, cn)
+    cdefs = [cd] if cd is not None else []
+    if len(cdefs) != 1 or not isinstance(cdefs[0], ast.Assign) or fi.def_value(cdefs[0], c0) is None or cdefs[0] not in nodes:
         ck.missing(rule, 'single definition of the right-hand side %s in the sink-set branch' % cn)
         return
     ones = ['np.ones(_N)', 'np.ones((_N,))', 'np.ones(_N, dtype=float)', 'np.ones(_N, float)', 'np.ones_like(_V, dtype=float)',
             'np.full(_N, 1.0)', 'np.full(_N, 1)']
-    v = classify(xp(fi, mod, fi.def_value(cdefs[0], cn), stop=(tprob, sinks, pops)), ones, scope={tprob, sinks, pops})
+    v = classify(xp(fi, mod, fi.def_value(cdefs[0], c0), stop=(tprob, sinks, pops)), ones, scope={tprob, sinks, pops})
     okc = ck.decide(v, rule, mod, cdefs[0], F, u(cdefs[0]), 'right-hand side: one lag per step everywhere',
                     'the MFPT right-hand side must be a vector of ones (one lag time per step)')
     if okc:
         _pins(ck, rule, mod, fn, fi, F, cn, {sinks: 0}, (tprob, sinks, pops), ss,
               'zero on the sinks, set before the solve',
               'the MFPT right-hand side must be ones with c[sinks] = 0 set BEFORE np.linalg.solve(I_m_Q, c)',
-              construct_missing='%s[%s] = 0: MISSING' % (cn, sinks), after=cdefs[0])
+              construct_missing='%s[%s] = 0: MISSING' % (cn, sinks), after=cdefs[0], names=cnames)
     # what is returned is lag * <the solution>
     st = fi.xu(solve)
     for rsite, val in results:
@@ -881,7 +975,7 @@ def d3_sink_set(ck, mod, fn, fi, F, node, sset, results, tprob, sinks, pops, lag
         rest = [n for n in nums if not (isinstance(n, ast.Name) and n.id == lag)]
         if not dens and len(rest) == 1 and u(rest[0]) in (st, st + '.flatten()', st + '.ravel()'):
             ck.ok(rule, mod, rsite, u(rsite), 'the returned times are the solution of (I - Q) t = c')
-        elif not dens and len(rest) == 1 and isinstance(rest[0], ast.Name) and rest[0].id == cn:
+        elif not dens and len(rest) == 1 and isinstance(rest[0], ast.Name) and rest[0].id in cnames:
             ck.bad(rule, mod, rsite, F, u(rsite), 'the right-hand side, not the solution of the linear system, is returned')
         else:
             ck.missing(rule, 'returned sink-set value is not lagtime * <solution of the linear solve>: %s' % u(rsite)[:120])
